@@ -65,6 +65,7 @@ func newBProver(fn *ssa.Function) *bprover {
 		return p
 	}
 	p := &bprover{fn: fn, stored: map[string]bool{}, budget: 4000}
+	var deferred []deferredCond
 	neg := map[token.Token]token.Token{token.LSS: token.GEQ, token.GEQ: token.LSS, token.GTR: token.LEQ, token.LEQ: token.GTR, token.EQL: token.NEQ, token.NEQ: token.EQL}
 	for _, b := range fn.Blocks {
 		for _, in := range b.Instrs {
@@ -94,6 +95,13 @@ func newBProver(fn *ssa.Function) *bprover {
 		}
 		bo, ok := cond.(*ssa.BinOp)
 		if !ok {
+			if _, isPhi := cond.(*ssa.Phi); isPhi {
+				t, f := b.Succs[0], b.Succs[1]
+				if flip {
+					t, f = f, t
+				}
+				deferred = append(deferred, deferredCond{cond, b, t, f})
+			}
 			continue
 		}
 		if _, isCmp := neg[bo.Op]; !isCmp {
@@ -108,8 +116,70 @@ func newBProver(fn *ssa.Function) *bprover {
 		}
 		p.facts = append(p.facts, bfact{bo.X, bo.Y, bo.Op, b, t}, bfact{bo.X, bo.Y, neg[bo.Op], b, f})
 	}
+	// boolean values computed earlier (named conditions, && / || chains stored in a variable): knowing the value
+	// tells which comparison produced it and which comparisons had to hold on the way there
+	base := append([]bfact{}, p.facts...)
+	var implied func(v ssa.Value, truth bool, depth int) []bfact
+	implied = func(v ssa.Value, truth bool, depth int) []bfact {
+		if depth > 4 {
+			return nil
+		}
+		switch x := v.(type) {
+		case *ssa.UnOp:
+			if x.Op == token.NOT {
+				return implied(x.X, !truth, depth+1)
+			}
+		case *ssa.BinOp:
+			if _, isCmp := neg[x.Op]; isCmp {
+				if bt, ok := x.X.Type().Underlying().(*types.Basic); ok && bt.Info()&types.IsInteger != 0 {
+					op := x.Op
+					if !truth {
+						op = neg[op]
+					}
+					return []bfact{{x: x.X, y: x.Y, op: op}}
+				}
+			}
+		case *ssa.Phi:
+			// the value can only have come over an edge that does not carry the opposite constant
+			cand := -1
+			for i, e := range x.Edges {
+				if k, isK := e.(*ssa.Const); isK && k.Value != nil && k.Value.Kind() == constant.Bool && constant.BoolVal(k.Value) != truth {
+					continue
+				}
+				if cand >= 0 {
+					return nil
+				}
+				cand = i
+			}
+			if cand < 0 {
+				return nil
+			}
+			out := implied(x.Edges[cand], truth, depth+1)
+			pred := x.Block().Preds[cand]
+			for _, f := range base {
+				if edgeDominates(f.from, f.to, pred) || (f.from == pred && f.to == x.Block() && len(pred.Succs) == 2 && pred.Succs[0] != pred.Succs[1]) {
+					out = append(out, bfact{x: f.x, y: f.y, op: f.op})
+				}
+			}
+			return out
+		}
+		return nil
+	}
+	for _, d := range deferred {
+		for _, f := range implied(d.cond, true, 0) {
+			p.facts = append(p.facts, bfact{f.x, f.y, f.op, d.b, d.t})
+		}
+		for _, f := range implied(d.cond, false, 0) {
+			p.facts = append(p.facts, bfact{f.x, f.y, f.op, d.b, d.f})
+		}
+	}
 	bproverCache[fn] = p
 	return p
+}
+
+type deferredCond struct {
+	cond    ssa.Value
+	b, t, f *ssa.BasicBlock
 }
 
 // bpoint: the end of block b, or (via != nil) the CFG edge b -> via
